@@ -534,8 +534,11 @@ pub fn drive(prop: &dyn Prop, ctx: &Ctx, replay: Option<&Path>, cases_override: 
     let mut violation: Option<(PathBuf, String)> = None;
 
     // 1. regression tier: explicit cases that bypass the generator
-    let fixed = prop.fixed_cases();
+    // LOLV_SKIP_FIXED=1 (sensitivity experiments only): leave out the hand-written regression
+    // cases so that only the generated search can detect a change
+    let skip_fixed = std::env::var("LOLV_SKIP_FIXED").is_ok();
     let findings = findings_for(prop.id());
+    let fixed: Vec<FixedCase> = prop.fixed_cases().into_iter().filter(|fc| !skip_fixed || fc.finding.is_some_and(|id| findings.iter().any(|f| f.id == id && f.status == "open"))).collect();
     let mut regress_run = 0;
     for fc in &fixed {
         regress_run += 1;
